@@ -151,6 +151,7 @@ theorem cp_eq_sum_partial {s s' : State} {op : Op} (hi : Inv12 s) (h : stepRel s
   | wpLock k j v => exact wpLock_inv12 h hi
   | rpLock j v => exact inv12_frame (rpLock_frame h) hi
   | rpUnlock j v => exact inv12_frame (rpUnlock_frame h) hi
+  | readRedeem k i j p => exact inv12_frame (readRedeem_frame h) hi
   | tick dt => simp only [step] at h; cases h; exact inv12_frame ⟨rfl, rfl⟩ hi
   | noop => simp only [step] at h; cases h; exact hi
 
